@@ -1155,7 +1155,7 @@ def strat_lists(draw):
 
 
 SUBCHECKS = [
-    SubCheck('transform', run_transform, strategy=strat_transform, quick=6000, thorough=300000,
+    SubCheck('transform', run_transform, strategy=strat_transform, quick=6000, thorough=200000,
              rule="hand-made CNFs (0..4 variable groups with names containing braces, 0..10 clauses of width <=4, custom header entries, 0..2 earlier 'transformation i' entries) and small family instances x chains of 1..4 steps over every exported substitution (arity 1..3), ite, lift, flip, xor/maj compression with an explicit bipartite graph (cnfgen and networkx) and Shuffle with 'fixed'/'shuffle'/list/tuple arguments; at most one clause-expanding step unless the formula is tiny, steps over the clause cap are not applied; oracle: snapshot of every earlier formula identical after each step, new object, no shared header/clause objects, header = input header (description contained) + next 'transformation i', mutation of result/inputs afterwards does not leak; non-trivial: input with >=2 clauses and >=1 applied step",
              required_labels=TRANSFORM_LABELS),
     SubCheck('cli', run_cli, strategy=strat_cli, quick=900, thorough=40000,
